@@ -135,7 +135,46 @@ ViolationsCF(T) ==
   \cup (IF T # <<>> /\ AdjCF(T, "Z") THEN {"adjacent_zom"} ELSE {})
   \cup CommonViolations(T)
 
+(* ---------------------------------------------------------------- size limit *)
+(* "invariant text stays below the size limit": a token or (sub-)expression whose text has a  *)
+(* fixed size in bytes - literals, separators, repetitions with equal bounds of such, and     *)
+(* alternations whose branches all have the same such size - must stay below 64 KiB.  The     *)
+(* size of "one character" (`?`, a class) in bytes is not fixed by the documentation, so a    *)
+(* unit that contains one is not judged here (no prediction; see HasBigBound).                *)
+SizeLimit == 65536
+SizeCap == 1048576      \* sizes saturate here (TLC integers are 32 bits wide)
+Sat(n) == IF n > SizeCap THEN SizeCap ELSE n
+Var == [v |-> "var", n |-> 0]
+Inv(n) == [v |-> "inv", n |-> Sat(n)]
+RECURSIVE SizeSeq(_), SizeTok(_), SumSizes(_, _)
+SizeTok(t) ==
+  CASE t.k = "lit" -> Inv(ByteLen(t.s))
+    [] t.k = "sep" -> Inv(1)
+    [] t.k = "alt" -> LET zs == {SizeSeq(t.bs[x]) : x \in DOMAIN t.bs} IN
+                      IF \E z \in zs : z.v = "var" THEN Var
+                      ELSE IF Cardinality({z.n : z \in zs}) = 1 THEN CHOOSE z \in zs : TRUE ELSE Var
+    [] t.k = "rep" -> LET z == SizeSeq(t.bd) IN
+                      IF z.v = "inv" /\ t.hi # INF /\ t.lo = t.hi /\ t.lo <= SizeCap
+                      THEN (IF t.lo >= 2048 /\ z.n >= 2048 THEN Inv(SizeCap) ELSE Inv(z.n * t.lo)) ELSE Var
+    [] OTHER -> Var     \* wildcards: variable; `?` and classes: one character of unspecified size
+SumSizes(s, i) == IF i > Len(s) THEN Inv(0)
+                  ELSE LET a == SizeTok(s[i])  b == SumSizes(s, i + 1) IN
+                       IF a.v = "var" \/ b.v = "var" THEN Var ELSE Inv(a.n + b.n)
+SizeSeq(s) == SumSizes(s, 1)
+(* some unit (token, branch, body, the whole expression) has a fixed size at or above the limit *)
+RECURSIVE OversizedIn(_)
+OversizedIn(s) ==
+  \/ LET z == SizeSeq(s) IN z.v = "inv" /\ z.n >= SizeLimit
+  \/ \E j \in DOMAIN s :
+        LET t == s[j]  z == SizeTok(t) IN
+        \/ z.v = "inv" /\ z.n >= SizeLimit
+        \/ t.k = "alt" /\ \E x \in DOMAIN t.bs : OversizedIn(t.bs[x])
+        \/ t.k = "rep" /\ OversizedIn(t.bd)
+Oversized(T) == T # <<>> /\ OversizedIn(T)
+
 (* ------------------------------------------------------------------- verdict *)
+(* large bounds below the invariant size limit may still exceed the size limit of the compiled *)
+(* program (a different, documented error): no prediction                                     *)
 HasBigBound(T) == \E r \in Reps(T) : r.lo >= 1000 \/ (r.hi # INF /\ r.hi >= 1000)
 
 (* Unspecified clause U1: a body that begins and ends with a boundary but is written at most *)
@@ -152,7 +191,7 @@ Predict(e) ==
   IF p.st = "syn" THEN "reject"
   ELSE IF p.st = "ood" THEN "unspec"
   ELSE LET T == Strip(p.toks) IN
-       IF ViolationsCF(T) # {} THEN "reject"
+       IF ViolationsCF(T) # {} \/ Oversized(T) THEN "reject"
        ELSE IF HasBigBound(T) \/ AmbiguousOnce(T) THEN "unspec"
        ELSE "build"
 
